@@ -103,6 +103,17 @@ func (m MethodScope) populateImports(t types.Type, imports map[string]*Package) 
 			}
 		}
 
+	case *types.Basic:
+		// unsafe.Pointer is the only basic type that is printed with a qualifier
+		if t.Kind() == types.UnsafePointer {
+			imports["unsafe"] = m.registry.AddImport(types.Unsafe)
+		}
+
+	case *types.Union: // constraint unions may mention types of other packages
+		for i := 0; i < t.Len(); i++ {
+			m.populateImports(t.Term(i).Type(), imports)
+		}
+
 	case *types.Array:
 		m.populateImports(t.Elem(), imports)
 
